@@ -76,15 +76,17 @@ def run(chk):
     hook = volume_hook(uc)
     ev = uc.ev("UnitCell.set_lengths_and_angles", call_hook=hook, attr_hook=property_hook(uc, "UnitCell"))
     chk.saw(UC, "UnitCell.set_lengths_and_angles")
-    mats = {}
+    paths = {}
     for e in ev.events:
         if e.kind == "store" and e.target.key() in ("self.direct", "self.inverse"):
             m = matrix_items(e.value)
             if m is None or len(m) != 3 or any(len(r) != 3 for r in m):
                 raise AnalysisError(f"set_lengths_and_angles: {e.target} is not a 3x3 array literal")
-            mats[e.target.key().split(".")[1]] = m
-    chk.need(len(mats) == 2, "set_lengths_and_angles: direct / inverse literals not found")
-    D, I = mats["direct"], mats["inverse"]
+            gk = tuple((c.key(), pol) for c, pol in e.guards)
+            paths.setdefault(gk, {"guards": e.guards, "node": e.node})[e.target.key().split(".")[1]] = m
+    paths = {k: v for k, v in paths.items() if "direct" in v or "inverse" in v}
+    chk.need(paths and all("direct" in v and "inverse" in v for v in paths.values()),
+             "set_lengths_and_angles: direct / inverse literals not found (or not stored together on every path)")
     L = P.atom(("attr", P.name("self"), "lengths"))
     A = P.atom(("attr", P.name("self"), "angles"))
     a, b, c = [P.atom(("sub", L, (P.const(k),))) for k in range(3)]
@@ -94,44 +96,46 @@ def run(chk):
     ca, cb, cg = cos(al), cos(be), cos(ga)
     Vsq = a * a * b * b * c * c * (1 - ca * ca - cb * cb - cg * cg + 2 * ca * cb * cg)
     V = P.atom(("call", P.name("sqrt"), (1 - ca * ca - cb * cb - cg * cg + 2 * ca * cb * cg,))) * a * b * c
+
+    def special(guards):
+        """Rewrite rules a path's guards give: an angle tested equal/close to pi/2 has cosine 0 and sine 1.  None = not recognised."""
+        extra = {}
+        for cnd, pol in guards:
+            hit = False
+            for ang in (al, be, ga):
+                k = cnd.key()
+                if pol and ang.key() in k and ("(pi)/2" in k or "1/2*pi" in k or "numpy.pi/2" in k or "pi/2" in k) and \
+                        (k.startswith(("close(", "numpy.isclose(", "numpy.allclose(", "isclose(", "math.isclose(")) or k.startswith("(eq ") or k.startswith("(lt abs(")):
+                    extra[cos(ang).as_atom()] = P.const(0)
+                    extra[sin(ang).as_atom()] = P.const(1)
+                    hit = True
+            if not hit and pol is not None:
+                # a guard that says nothing about the angles on the general path (the negation of a fast-path test) is fine
+                if not pol:
+                    continue
+                return None
+        return extra
+    general = [k for k in paths if not any(pol for _, pol in k)]
+    for gk, pv in paths.items():
+        D, I = pv["direct"], pv["inverse"]
+        allterms = [x for row in D + I for x in row]
+        rules = sin_rules(*allterms, sin(al), sin(be), sin(ga))
+        ex = special(pv["guards"])
+        if ex is None:
+            raise AnalysisError(f"set_lengths_and_angles: matrices stored under a condition that is not recognised: {[str(c)[:60] for c, _ in pv['guards']]}")
+        tag = "" if not ex else "@" + ",".join(sorted(str(P.atom(k)) for k in ex))
+        syms = (a, b, c, ca, cb, cg, V)
+        if ex:
+            # specialise both sides to the path: substitute inside nested terms too (the volume's square root)
+            D = [[x.subs(ex) for x in row] for row in D]
+            I = [[x.subs(ex) for x in row] for row in I]
+            syms = tuple(x.subs(ex) for x in syms)
+            rules = sin_rules(*[x for row in D + I for x in row], sin(al), sin(be), sin(ga))
+        if chk.want("R12.1"):
+            r12_1_path(chk, uc, ev, D, I, rules, tag, syms, pv["node"], first=(gk == (general[0] if general else list(paths)[0])))
+    D, I = paths[general[0] if general else list(paths)[0]]["direct"], paths[general[0] if general else list(paths)[0]]["inverse"]
     allterms = [x for row in D + I for x in row]
     rules = sin_rules(*allterms, sin(al), sin(be), sin(ga))
-
-    if chk.want("R12.1"):
-        # the stores of lengths / angles feed the formulas
-        st = {e.target.key(): e.value.key() for e in ev.events if e.kind == "store"}
-        chk.ob("R12.1", UC, "UnitCell.set_lengths_and_angles", "lengths and angles are stored from the arguments before the matrices are built",
-               st.get("self.lengths") in _copies_of(ev.param_names[1]) | {ev.param_names[1]} and
-               st.get("self.angles") in _copies_of(ev.param_names[2]) | {ev.param_names[2]}, found=str(st)[:120])
-        chk.ob("R12.1", UC, "UnitCell.set_lengths_and_angles", "the cell stores its own copies of the lengths and angles (a later change of the "
-               "caller's arrays must not change the cell)", st.get("self.lengths") in _copies_of(ev.param_names[1]) and
-               st.get("self.angles") in _copies_of(ev.param_names[2]), fingerprint="params-copy", expected="list(lengths), list(angles)",
-               found=f"{st.get('self.lengths')}, {st.get('self.angles')}")
-        vv = uc.ev("UnitCell.volume", attr_hook=property_hook(uc, "UnitCell"))
-        chk.saw(UC, "UnitCell.volume")
-        chk.ob("R12.1", UC, "UnitCell.volume", "volume = abc sqrt(1 - ca^2 - cb^2 - cg^2 + 2 ca cb cg)",
-               is_zero_mod(vv.returns[0].value - V, rules), expected=str(V), found=str(vv.returns[0].value))
-        for i in range(3):
-            for j in range(3):
-                s = P.const(0)
-                for k in range(3):
-                    s = s + D[i][k] * I[k][j]
-                want = P.const(1 if i == j else 0)
-                chk.ob("R12.1", UC, "UnitCell.set_lengths_and_angles", f"(direct . inverse)[{i},{j}] == {want}",
-                       is_zero_mod(s - want, rules), fingerprint=f"DI:{i}{j}", expected=str(want), found=str(s.rewrite(rules))[:200])
-        det = (D[0][0] * (D[1][1] * D[2][2] - D[1][2] * D[2][1]) - D[0][1] * (D[1][0] * D[2][2] - D[1][2] * D[2][0])
-               + D[0][2] * (D[1][0] * D[2][1] - D[1][1] * D[2][0]))
-        chk.ob("R12.1", UC, "UnitCell.set_lengths_and_angles", "det(direct) == volume", is_zero_mod(det - V, rules),
-               expected=str(V), found=str(det)[:200])
-        dots = {(0, 0): a * a, (1, 1): b * b, (2, 2): c * c, (1, 2): b * c * ca, (0, 2): a * c * cb, (0, 1): a * b * cg}
-        names = {(0, 0): "|a|^2", (1, 1): "|b|^2", (2, 2): "|c|^2", (1, 2): "b.c = bc cos(alpha)", (0, 2): "a.c = ac cos(beta)",
-                 (0, 1): "a.b = ab cos(gamma)"}
-        for (i, j), want in dots.items():
-            s = P.const(0)
-            for k in range(3):
-                s = s + D[i][k] * D[j][k]
-            chk.ob("R12.1", UC, "UnitCell.set_lengths_and_angles", f"rows of direct: {names[(i, j)]}", is_zero_mod(s - want, rules),
-                   fingerprint=f"DD:{i}{j}", expected=str(want), found=str(s.rewrite(rules))[:200])
     if chk.want("R12.2"):
         ph = property_hook(uc, "UnitCell", depth=3)
         star_len = {}
@@ -180,6 +184,45 @@ def run(chk):
         chk.ob("R12.5", UC, "UnitCell.lattice", "lattice = direct", pv.returns[0].value.key() == "self.direct", found=str(pv.returns[0].value))
     chk.assume("conditioning, arccos clipping and the snapping tolerance of `parameters` are not decided")
     chk.assume("sin^2 + cos^2 = 1 and sqrt(x)^2 = x (x >= 0 for a valid cell) are the only relations used")
+
+
+def r12_1_path(chk, uc, ev, D, I, rules, tag, syms, node, first=True):
+    a, b, c, ca, cb, cg, V = syms
+    if first:
+        # the stores of lengths / angles feed the formulas
+        st = {e.target.key(): e.value.key() for e in ev.events if e.kind == "store"}
+        chk.ob("R12.1", UC, "UnitCell.set_lengths_and_angles", "lengths and angles are stored from the arguments before the matrices are built",
+               st.get("self.lengths") in _copies_of(ev.param_names[1]) | {ev.param_names[1]} and
+               st.get("self.angles") in _copies_of(ev.param_names[2]) | {ev.param_names[2]}, found=str(st)[:120])
+        chk.ob("R12.1", UC, "UnitCell.set_lengths_and_angles", "the cell stores its own copies of the lengths and angles (a later change of the "
+               "caller's arrays must not change the cell)", st.get("self.lengths") in _copies_of(ev.param_names[1]) and
+               st.get("self.angles") in _copies_of(ev.param_names[2]), fingerprint="params-copy", expected="list(lengths), list(angles)",
+               found=f"{st.get('self.lengths')}, {st.get('self.angles')}")
+        vv = uc.ev("UnitCell.volume", attr_hook=property_hook(uc, "UnitCell"))
+        chk.saw(UC, "UnitCell.volume")
+        chk.ob("R12.1", UC, "UnitCell.volume", "volume = abc sqrt(1 - ca^2 - cb^2 - cg^2 + 2 ca cb cg)",
+               is_zero_mod(vv.returns[0].value - V, rules), expected=str(V), found=str(vv.returns[0].value))
+    for i in range(3):
+        for j in range(3):
+            s = P.const(0)
+            for k in range(3):
+                s = s + D[i][k] * I[k][j]
+            want = P.const(1 if i == j else 0)
+            chk.ob("R12.1", UC, "UnitCell.set_lengths_and_angles", f"(direct . inverse)[{i},{j}] == {want}",
+                   is_zero_mod(s - want, rules), fingerprint=f"DI:{i}{j}{tag}", expected=str(want), found=str(s.rewrite(rules))[:200])
+    det = (D[0][0] * (D[1][1] * D[2][2] - D[1][2] * D[2][1]) - D[0][1] * (D[1][0] * D[2][2] - D[1][2] * D[2][0])
+           + D[0][2] * (D[1][0] * D[2][1] - D[1][1] * D[2][0]))
+    chk.ob("R12.1", UC, "UnitCell.set_lengths_and_angles", "det(direct) == volume" + (f" on the path where {tag[1:]}" if tag else ""), is_zero_mod(det - V, rules), fingerprint="det" + tag, node=node,
+           expected=str(V), found=str(det)[:200])
+    dots = {(0, 0): a * a, (1, 1): b * b, (2, 2): c * c, (1, 2): b * c * ca, (0, 2): a * c * cb, (0, 1): a * b * cg}
+    names = {(0, 0): "|a|^2", (1, 1): "|b|^2", (2, 2): "|c|^2", (1, 2): "b.c = bc cos(alpha)", (0, 2): "a.c = ac cos(beta)",
+             (0, 1): "a.b = ab cos(gamma)"}
+    for (i, j), want in dots.items():
+        s = P.const(0)
+        for k in range(3):
+            s = s + D[i][k] * D[j][k]
+        chk.ob("R12.1", UC, "UnitCell.set_lengths_and_angles", f"rows of direct: {names[(i, j)]}", is_zero_mod(s - want, rules),
+               fingerprint=f"DD:{i}{j}{tag}", expected=str(want), found=str(s.rewrite(rules))[:200])
 
 
 def r12_3(chk, uc):
